@@ -18,6 +18,7 @@ from . import values as V
 from .core import PyRaise
 from .values import (
     SODict,
+    SSet,
     SBool,
     SBytes,
     SExc,
@@ -80,6 +81,9 @@ def iteration(ip: Any, it: Any) -> Any:
         if isinstance(seq, list):
             return seq[pos:]
         return (seq[0] - pos, lambda k: seq[1](k + pos))
+    if isinstance(it, (SObj, SOpaque)) and ip.S.handlers.get(f"{it.kind}.__iter__") is not None:
+        # abstract object / opaque reference whose iteration is given by contract (returns a SymIter / list)
+        return iteration(ip, ip.S.handlers[f"{it.kind}.__iter__"](ip.S, it))
     if isinstance(it, (SStr,)):
         return (z3.Length(it.t), lambda k: SStr(z3.SubString(it.t, k, 1)))
     if isinstance(it, SBytes):
@@ -175,6 +179,9 @@ def binop(ip: Any, op: ast.operator, a: Any, b: Any) -> Any:
                     return SFloat(z3.FP(S.fresh_name("pow2neg"), V.FP64))
                 S.assume(POW2(y) >= 1)
                 S.assume(z3.Implies(y == 0, POW2(y) == 1))
+                # monotonicity of 2**n against the binary64 exponent range (int -> float conversion)
+                S.assume(z3.Implies(y <= 1023, POW2(y) <= 2**1023))
+                S.assume(z3.Implies(y >= 1024, POW2(y) >= 2**1024))
                 S.note("2**n for symbolic n encoded as uninterpreted pow2(n) with pow2(n)>=1")
                 return SInt(POW2(y))
             raise Unsupported("integer power with symbolic operands")
@@ -202,13 +209,60 @@ def binop(ip: Any, op: ast.operator, a: Any, b: Any) -> Any:
         return percent_format(ip, a, args)
     if isinstance(op, ast.BitOr) and isinstance(a, dict) and isinstance(b, dict):
         return {**a, **b}
+    if isinstance(op, (ast.Sub, ast.BitOr, ast.BitAnd)) and (isinstance(a, SSet) or isinstance(b, SSet)) and isinstance(a, (SSet, set, frozenset)) and isinstance(b, (SSet, set, frozenset)):
+        x, y = to_sset(ip, a), to_sset(ip, b)
+        return x.diff(y) if isinstance(op, ast.Sub) else (x.union(y) if isinstance(op, ast.BitOr) else x.inter(y))
     if isinstance(op, ast.Add) and (isinstance(a, (SStr, str)) != isinstance(b, (SStr, str))):
         raise raise_(ip, TypeError, "can only concatenate str to str")
+    if isinstance(a, SObj) or isinstance(b, SObj):
+        # abstract objects: binary operators by contract ("Kind.__sub__" / reflected "Kind.__rsub__")
+        nm = {ast.Add: "add", ast.Sub: "sub", ast.Mult: "mul", ast.Div: "truediv", ast.FloorDiv: "floordiv", ast.Mod: "mod"}.get(type(op))
+        for o, other, dunder in ((a, b, f"__{nm}__"), (b, a, f"__r{nm}__")):
+            h = S.handlers.get(f"{o.kind}.{dunder}") if nm and isinstance(o, SObj) else None
+            if h is not None:
+                return h(S, o, other)
     raise Unsupported(f"operator {type(op).__name__} on {type(a).__name__}, {type(b).__name__}")
 
 
+_DBL_OVERFLOW = 2**1024 - 2**970  # smallest int whose round-to-nearest-even conversion leaves binary64
+
+
+def int_to_float(ip: Any, x: Any) -> Any:
+    """CPython int -> float (PyLong_AsDouble) for a symbolic int: OverflowError when the correctly
+    rounded value is not finite.  z3 does not decide ``to_fp`` of a non-constant Real, so the result is
+    a fresh binary64 constant (one per int term and path) constrained by facts of correct rounding
+    (finite; 0 -> +0.0; monotone against the exactly representable 0, +-1, +-2**1023).  The int side is
+    decided by forks so that the float facts stay free of Int terms (pure FloatingPoint queries are
+    bit-blasted; mixed ones are an order of magnitude slower).  Sound over-approximation: counter-models
+    are replayed natively.  Returns a z3 FP term."""
+    if not isinstance(x, SInt):
+        return V.floatterm(x)
+    S, t = ip.S, x.t
+    cache = S.ghost.setdefault("__float_of_int__", {})
+    if t.get_id() in cache:
+        return cache[t.get_id()]
+    if not S.fork(SBool(z3.And(t < _DBL_OVERFLOW, t > -_DBL_OVERFLOW))):
+        raise raise_(ip, OverflowError, "int too large to convert to float")
+    f = z3.FP(S.fresh_name("float_of_int"), V.FP64)
+    one, big = z3.FPVal(1.0, V.FP64), z3.FPVal(2.0**1023, V.FP64)
+    S.assume(z3.And(z3.Not(z3.fpIsNaN(f)), z3.Not(z3.fpIsInf(f))))
+    if S.fork(SBool(t >= 1)):
+        S.assume(z3.fpGEQ(f, one))
+        if S.fork(SBool(t <= 2**1023)):
+            S.assume(z3.fpLEQ(f, big))
+    elif S.fork(SBool(t <= -1)):
+        S.assume(z3.fpLEQ(f, z3.fpNeg(one)))
+        if S.fork(SBool(t >= -(2**1023))):
+            S.assume(z3.fpGEQ(f, z3.fpNeg(big)))
+    else:
+        S.assume(z3.And(z3.fpIsZero(f), z3.fpIsPositive(f)))
+    S.note("float(int) for a symbolic int: fresh binary64 value with finiteness/sign/monotonicity facts; OverflowError beyond the binary64 range")
+    cache[t.get_id()] = f
+    return f
+
+
 def float_binop(ip: Any, op: ast.operator, a: Any, b: Any) -> Any:
-    x, y = V.floatterm(a), V.floatterm(b)
+    x, y = int_to_float(ip, a), int_to_float(ip, b)
     if isinstance(op, ast.Add):
         return SFloat(z3.fpAdd(V.RNE, x, y))
     if isinstance(op, ast.Sub):
@@ -244,7 +298,8 @@ def compare(ip: Any, op: ast.cmpop, a: Any, b: Any) -> Any:
     if isinstance(op, ast.Is):
         return identical(a, b)
     if isinstance(op, ast.IsNot):
-        return not identical(a, b)
+        r = identical(a, b)
+        return (not r) if isinstance(r, bool) else V.Not(r)
     if isinstance(op, ast.Eq):
         return pyeq(ip, a, b)
     if isinstance(op, ast.NotEq):
@@ -294,9 +349,17 @@ def kindname(v: Any) -> str:
     return {SInt: "int", SBool: "bool", SStr: "str", SBytes: "bytes", SFloat: "float", SList: "list", SMap: "dict"}.get(type(v), type(v).__name__)
 
 
-def identical(a: Any, b: Any) -> bool:
+IS_NONE: dict[str, Any] = {}
+
+
+def identical(a: Any, b: Any) -> Any:
     if a is b:
         return True
+    # an opaque Python value of a nullable kind ("Kind?") may be None
+    for x, y in ((a, b), (b, a)):
+        if isinstance(x, SOpaque) and x.kind.endswith("?") and y is None:
+            f = IS_NONE.setdefault(x.kind, z3.Function(f"is_none_{x.kind[:-1]}", V.opaque_sort(x.kind), z3.BoolSort()))
+            return SBool(f(x.t))
     if isinstance(a, (Sym, SList, SMap, SObj, SExc)) or isinstance(b, (Sym, SList, SMap, SObj, SExc)):
         if a is None or b is None or isinstance(a, type) or isinstance(b, type):
             return False
@@ -361,6 +424,8 @@ def contains(ip: Any, container: Any, item: Any) -> Any:
     if isinstance(container, SMap):
         return container.has(item)
     if isinstance(container, SODict):
+        return container.has(item)
+    if isinstance(container, SSet):
         return container.has(item)
     if isinstance(container, SList):
         c = container.snapshot()
@@ -442,6 +507,8 @@ def subscript(ip: Any, obj: Any, idx: Any) -> Any:
         if h is not None:
             return h(S, obj, idx)
         raise Unsupported(f"subscript of {obj!r}")
+    if isinstance(obj, SOpaque) and S.handlers.get(f"{obj.kind}.__getitem__") is not None:
+        return S.handlers[f"{obj.kind}.__getitem__"](S, obj, idx)
     if isinstance(obj, (list, tuple)) and isinstance(idx, SInt):
         n = len(obj)
         k = norm_index(ip, idx, z3.IntVal(n), "list")
@@ -697,6 +764,8 @@ def b_len(ip: Any, x: Any) -> Any:
         if h is not None:
             return h(ip.S, x)
         raise Unsupported(f"len() of {x!r}")
+    if isinstance(x, SOpaque) and ip.S.handlers.get(f"{x.kind}.__len__") is not None:
+        return ip.S.handlers[f"{x.kind}.__len__"](ip.S, x)
     if isinstance(x, Sym) or x is None:
         raise raise_(ip, TypeError, f"object of type '{kindname(x)}' has no len()")
     try:
@@ -776,7 +845,7 @@ def b_float(ip: Any, x: Any = 0.0) -> Any:
     if isinstance(x, SFloat):
         return x
     if isinstance(x, (SInt, SBool)):
-        return SFloat(V.floatterm(x if isinstance(x, SInt) else SInt(_I(x))))
+        return SFloat(int_to_float(ip, x if isinstance(x, SInt) else SInt(_I(x))))
     if isinstance(x, SStr):
         # float(str): any double or ValueError (contents not interpreted)
         if ip.S.fork(SBool(z3.Bool(ip.S.fresh_name("float_parses")))):
@@ -988,8 +1057,6 @@ def b_zip(ip: Any, *xs: Any, strict: bool = False) -> Any:
         if strict and len({len(s) for s in seqs}) > 1:
             raise raise_(ip, ValueError, "zip() arguments have different lengths")
         return list(zip(*seqs))
-    if strict:
-        raise Unsupported("zip(strict=True) over symbolic-length iterables")
     lens = []
     ats = []
     for s in seqs:
@@ -1002,6 +1069,8 @@ def b_zip(ip: Any, *xs: Any, strict: bool = False) -> Any:
             ats.append(s[1])
     n = lens[0]
     for m in lens[1:]:
+        if strict and not ip.S.fork(SBool(m == lens[0])):
+            raise raise_(ip, ValueError, "zip() arguments have different lengths")
         n = z3.If(m < n, m, n)
     return SymIter(n, lambda k: tuple(a(k) for a in ats))
 
@@ -1046,10 +1115,37 @@ def b_dict(ip: Any, *a: Any, **kw: Any) -> Any:
     return d
 
 
-def b_set(ip: Any, xs: Any = ()) -> Any:
+def to_sset(ip: Any, xs: Any) -> SSet:
+    """View any supported collection of scalars as a membership predicate."""
+    if isinstance(xs, SSet):
+        return xs
+    if isinstance(xs, SODict):
+        snap = xs.snapshot()
+        wrap = xs.key_shape._wrap
+        return SSet(xs.key_shape, lambda t: snap.has(wrap(t)).t)
+    if isinstance(xs, SMap):
+        hf = xs.has_f
+        return SSet(xs.key_shape, lambda t: hf(t))
+    if isinstance(xs, SList):
+        snap = xs.snapshot()
+        w = snap.shape._wrap
+        return SSet(snap.shape, lambda t: V.ExistsInt(lambda i: V.And(i >= 0, SBool(i.t < snap.length), V.eq(snap.get(i), w(t)))).t)
     seq = iteration(ip, xs)
-    if not isinstance(seq, list) or V.contains_sym(seq):
-        raise Unsupported("set() with symbolic members")
+    if isinstance(seq, list):
+        if not seq:
+            return SSet(V.StrShape, lambda t: z3.BoolVal(False))
+        return SSet.of_values(V.shape_of(seq[0]), seq)
+    raise Unsupported(f"set view of {xs!r}")
+
+
+def b_set(ip: Any, xs: Any = ()) -> Any:
+    if isinstance(xs, (SSet, SODict, SMap, SList)):
+        return to_sset(ip, xs)
+    seq = iteration(ip, xs)
+    if not isinstance(seq, list):
+        raise Unsupported("set() of a symbolic-length iterable")
+    if V.contains_sym(seq):
+        return to_sset(ip, seq)
     return set(seq)
 
 
@@ -1058,6 +1154,14 @@ def b_frozenset(ip: Any, xs: Any = ()) -> Any:
 
 
 def b_sorted(ip: Any, xs: Any, **kw: Any) -> Any:
+    if isinstance(xs, SSet):
+        # some ordering of the members: a list of members, empty iff the set is empty (order not modelled)
+        L = V.ListShape(xs.shape).fresh("sorted")
+        S = ip.S
+        S.assume(SBool((L.length > 0) == xs.nonempty().t))
+        S.assume(V.ForAllInt(lambda j: V.Implies(V.And(j >= 0, SBool(j.t < L.length)), SBool(xs.member(L.get(j).t)))))
+        S.note("sorted(<symbolic set>) abstracted: a list of members, empty iff the set is empty; order not modelled")
+        return L
     seq = iteration(ip, xs)
     if not isinstance(seq, list) or V.contains_sym(seq) or kw.get("key") is not None and not callable(kw["key"]):
         raise Unsupported("sorted() with symbolic members")
@@ -1265,14 +1369,43 @@ def havoc_object(ip: Any, obj: Any, dotted: str, hints: dict[str, Any]) -> None:
         raise Unsupported(f"loop mutates concrete container {dotted!r} across iterations; give it a symbolic view (SList/SMap) or a loop_havoc hint")
 
 
+def map_terms(v: Any, fn: Any) -> Any:
+    if isinstance(v, SOpaque):
+        return SOpaque(fn(v.t), v.kind)
+    if isinstance(v, Sym):
+        return type(v)(fn(v.t))
+    if isinstance(v, tuple):
+        return tuple(map_terms(x, fn) for x in v)
+    if isinstance(v, SObj) and v.cls is None:
+        return SObj(None, kind=v.kind, **{k: map_terms(x, fn) for k, x in v.fields.items()})
+    return v
+
+
 def symbolic_comprehension(ip: Any, e: Any, frame: Any) -> Any:
-    """[elt for x in <symbolic-length list>] without filters -> pointwise SList."""
-    if len(e.generators) != 1 or e.generators[0].ifs:
+    """``[elt for x in <symbolic-length iterable>]`` without filters, for a *pure* element
+    expression: evaluated once on a generic index, then read pointwise by substitution."""
+    if len(e.generators) != 1 or e.generators[0].ifs or e.generators[0].is_async:
         return None
     g = e.generators[0]
-    if not isinstance(g.iter, (ast.Name, ast.Attribute, ast.Call, ast.Subscript)):
-        return None
-    return None
+    it = ip.eval(g.iter, frame)
+    seq = iteration(ip, it)
+    if isinstance(seq, list):
+        out = []
+        f = ip.comp_frame(frame)
+        for x in seq:
+            ip.assign(g.target, x, f)
+            out.append(ip.eval(e.elt, f))
+        return out
+    S = ip.S
+    length, at = seq
+    k = z3.Int(S.fresh_name("k_comp"))
+    f = ip.comp_frame(frame)
+    ip.assign(g.target, at(k), f)
+    before = len(S.decisions)
+    val = ip.eval(e.elt, f)
+    if len(S.decisions) != before:
+        raise Unsupported("comprehension over a symbolic-length iterable whose element expression branches")
+    return SList(V.shape_of(val), lambda j: map_terms(val, lambda t: z3.substitute(t, (k, j))), length)
 
 
 # ======================================================================================
@@ -1354,6 +1487,9 @@ def call_sym_method(ip: Any, obj: Any, name: str, args: list[Any], kwargs: dict[
         return map_method(ip, obj, name, args, kwargs)
     if isinstance(obj, SODict):
         return odict_method(ip, obj, name, args, kwargs)
+    if isinstance(obj, SOpaque) and S.handlers.get(f"{obj.kind}.{name}") is not None:
+        # an opaque *reference* (e.g. into a ghost heap) whose methods are given by contract
+        return S.handlers[f"{obj.kind}.{name}"](S, obj, *args, **kwargs)
     if isinstance(obj, SInt):
         if name == "bit_length":
             raise Unsupported("int.bit_length on symbolic")
@@ -1444,8 +1580,11 @@ def str_method(ip: Any, obj: Any, name: str, args: list[Any], kwargs: dict[str, 
         raise Unsupported(f"str.{name} (Unicode classes)")
     if name == "join":
         seq = iteration(ip, args[0])
+        if not isinstance(seq, list) and isinstance(args[0], SList) and args[0].cat is not None and z3.is_string_value(z3.simplify(t)) and z3.simplify(t).as_string() == "":
+            return W(args[0].cat)  # "".join(l) = the list's concatenation ghost (maintained by append/extend)
         if not isinstance(seq, list):
-            raise Unsupported("join over a symbolic-length iterable")
+            S.note("sep.join(<symbolic-length list>) rendered as an opaque string")
+            return W(z3.String(S.fresh_name("joined")))
         parts: list[Any] = []
         for i, x in enumerate(seq):
             _same_kind(ip, obj, x)
@@ -1502,6 +1641,7 @@ def list_method(ip: Any, obj: SList, name: str, args: list[Any], kwargs: dict[st
         return obj.snapshot()
     if name == "clear":
         obj.length = z3.IntVal(0)
+        obj.cat = z3.StringVal("") if obj.cat is not None else None
         return None
     if name == "extend":
         other = V.as_slist(args[0]).snapshot() if isinstance(args[0], (list, tuple, SList)) else None
@@ -1510,6 +1650,7 @@ def list_method(ip: Any, obj: SList, name: str, args: list[Any], kwargs: dict[st
         old, n = obj.getf, obj.length
         obj.getf = lambda j: V.ite(SBool(j < n), old(j), other.getf(j - n))
         obj.length = n + other.length
+        obj.cat = z3.Concat(obj.cat, other.cat) if obj.cat is not None and other.cat is not None else None
         return None
     raise Unsupported(f"list.{name} on a symbolic-length list")
 
@@ -1958,3 +2099,30 @@ EXTRA_MODELS.update(
         _struct.calcsize: _m_struct_calcsize,
     }
 )
+
+
+def _m_dataclasses_replace(ip: Any, obj: Any, /, **changes: Any) -> Any:
+    """``dataclasses.replace(obj, **changes)``: a new instance built by the class constructor from the
+    current values of the ``init`` fields overridden by ``changes`` (record of a real dataclass, or a
+    concrete dataclass instance receiving symbolic changes)."""
+    import dataclasses
+
+    if not isinstance(obj, SObj) and not V.contains_sym(changes):
+        return ip.native_call(dataclasses.replace, [obj], changes)
+    cls = obj.cls if isinstance(obj, SObj) else type(obj)
+    if cls is None or not dataclasses.is_dataclass(cls):
+        raise raise_(ip, TypeError, "replace() should be called on dataclass instances")
+    kw = dict(changes)
+    for f in dataclasses.fields(cls):
+        if not f.init:
+            if f.name in kw:
+                raise raise_(ip, ValueError, f"field {f.name} is declared with init=False, it cannot be specified with replace()")
+            continue
+        if f.name not in kw:
+            kw[f.name] = ip.getattr_value(obj, f.name)
+    return construct(ip, cls, [], kw)
+
+
+import dataclasses as _dc_mod
+
+EXTRA_MODELS[_dc_mod.replace] = _m_dataclasses_replace
